@@ -73,6 +73,11 @@ CHECKS = {
   text="Every sequence of up to 3 (quick) / 4 (thorough) operations over the input predicates (character, byte, term, peeks incl. failing peeks, end-of-stream tests, position) is run on 18 sources (incl. multi-byte text and texts whose operations straddle byte 4096 of the buffer), 6 stream configurations and binary files; every observed value must be what a single forward cursor yields: peeks leave the cursor, consecutive reads deliver consecutive input, end_of_file then the eof_action, position = bytes consumed. Output sequences must reach the sink completely and in order.",
   note="Trusted: the cursor model in checks/c19.go. Whether read_term/3 consumes the layout character after the end token is resolved by observing the implementation once; the outcome for a text that ends inside a term is not asserted.",
   design="DESIGN.md §3 C19"),
+ "C20": dict(
+  technique="bounded-exhaustive enumeration of program texts (all item sequences up to a length bound), fault enumeration (every fault kind at every position, on top of every small earlier load), two-load histories and a run-length sweep, loaded through Exec and consult/1 on the real interpreter and compared with a stage-then-commit reference loader",
+  text="Every text of up to 4 items out of 15 is loaded; into every text of up to 2 (quick) / 3 (thorough) items each of 6 faults is injected at every position (plus truncation), on top of every small earlier load; every small text is followed by every text of up to 2/3 items; clause runs of every length 1..17 (33) are followed by another predicate and more clauses. After every load: error or not, the output of observing directives and initialization goals, and the ordered answers of every predicate must equal the reference loader's (a failed load changes nothing).",
+  note="Trusted: the reference loader in checks/c20.go (stage, fail as a whole, commit with replace / multifile append, then initialization). What a directive sees of its own text's earlier clauses is not asserted.",
+  design="DESIGN.md §3 C20"),
  "C16": dict(
   technique="bounded-exhaustive enumeration of call patterns on the real interpreter against relations computed by brute force: every instantiation pattern the modes admit x every combination of bound values (matching and non-matching), answers compared as multisets; infinite / variable-creating modes against the reference machine",
   text="For each of the 17 predicates the complete relation over a finite domain (multi-byte characters, lists, integers near the 64-bit limits) is enumerated by brute force and every admissible call pattern is compared with the matching subset of the relation, each tuple exactly once - which also yields the monotonicity clause of the property.",
